@@ -70,6 +70,19 @@ class Model:
     def expected(self):
         return {k: v['refs'] for k, v in self.objs.items()}
 
+    def reaches(self, src, dst):
+        """is object dst contained (transitively) in object src"""
+        seen, todo = set(), [src]
+        while todo:
+            x = todo.pop()
+            if x == dst:
+                return True
+            if x in seen or x not in self.objs:
+                continue
+            seen.add(x)
+            todo.extend(self.objs[x]['contents'])
+        return False
+
 
 def cheap_call(proxy, kind):
     if kind in ('list', 'dict', 'slist'):
@@ -248,7 +261,7 @@ def _run(spec):
             if conts:
                 c, cid, ckind = conts[a % len(conts)]
                 p, oid, kind = main[b % len(main)]
-                if oid != cid:  # a container holding itself would never be released: not a history a user can clean up
+                if oid != cid and not model.reaches(oid, cid):  # a container holding itself (directly or through others) would never be released: not a history a user can clean up
                     if ckind == 'list':
                         c.append(p)
                         model.objs[cid]['contents'].append(oid)
@@ -403,6 +416,10 @@ def _run(spec):
         model.dec(oid)
     gc.collect()
     settle(len(spec['ops']))
+    if model.objs:
+        # cannot happen for the generated histories (no cycles); if it ever does, the next case must not inherit the leftovers
+        _teardown()
+        raise Inconclusive(f'harness: the reference model still holds {model.expected()} after dropping everything')
     return CaseInfo(
         nontrivial=(cross >= 1 or nested >= 1) and model.reached_zero >= 1,
         descriptor=spec['ops'],
